@@ -195,6 +195,10 @@ func c02Run(c *Ctx) {
 			c02Judge(c, &Case{Gen: "function-identity", Src: src, X: map[string]string{"op": "=="}})
 		}
 	}
+	// 3c2. the clock value is a number like any other: relations that hold for every number
+	if c.Mine() {
+		c02Judge(c, &Case{Gen: "clock-operand", Src: Lines(Var("t", BI("clock")), Print(`(t + "") == ("" + t)`), Print("t == t + 0"), Print("t - t"), Print(`(t + ": x") == ("" + t + ": x")`), Print("t * 0"), Print("t / t"), Print(`"" + (t - t) + (t * 0)`)), X: map[string]string{"op": "+"}})
+	}
 	// 3d. one operator in the program text evaluated again and again with operands of changing kinds: what
 	// it yields depends on the operands it is given now, not on what it was given before
 	{
@@ -367,6 +371,17 @@ func randExpr(r *Rng, depth int) string {
 func c02Judge(c *Ctx, cs *Case) {
 	c.Begin(cs)
 	switch cs.Gen {
+	case "clock-operand":
+		o := RunLib(cs.Src, RunOpts{MaxSteps: 100000})
+		if CheckAbnormal(c, o) {
+			return
+		}
+		if o.Exit != 0 || o.Stdout != "true\ntrue\n0\ntrue\n0\n1\n00\n" {
+			c.Violate(Violation{Why: "the value of ক্লক() does not behave like an ordinary number under the operators", Expected: "true true 0 true 0 1 00", Observed: describeObs(o), Signature: "clock-operand"})
+			return
+		}
+		c.Nontrivial(cs.Src)
+		return
 	case "eqlaws":
 		c02EqLaws(c, cs)
 		return
